@@ -449,6 +449,28 @@ fn c14_hosted(cx: &Ctx, k: u64, n: u64) {
             check_int!(cx, u32, v, c);
         }
     }
+    // F-div: q * 10^4 + r for every 97th quotient q of the u32 range (and the last 50), r next to
+    // a multiple of 10^4 - the values on which a block-wise (4 digits at a time) conversion of a
+    // 32-bit word depends, in the 32-bit types and lifted into the wider ones
+    let fam_end = c;
+    let qmax = (u32::MAX / 10_000) as u64;
+    for q in (0..=qmax).filter(|q| q % 97 == 0 || *q + 50 > qmax) {
+        for r in [0u64, 1, 9_998, 9_999] {
+            if !mine!() {
+                continue;
+            }
+            let v = q * 10_000 + r;
+            if let Ok(v) = u32::try_from(v) {
+                check_int!(cx, u32, v, c);
+                check_int!(cx, usize, v as usize, c);
+                check_int!(cx, i32, v as i32, c);
+                check_int!(cx, isize, v as i32 as isize, c);
+            }
+            check_int!(cx, u64, v, c);
+            check_int!(cx, i64, -(v as i64), c);
+        }
+    }
+    let div = c - fam_end;
     if k == 0 {
         for d in 0..=3u128 {
             check_int!(cx, u128, u128::MAX - d, c);
@@ -465,9 +487,10 @@ fn c14_hosted(cx: &Ctx, k: u64, n: u64) {
             check_int!(cx, i32, i32::MAX - d as i32, c);
         }
     }
-    cx.domain(&format!("hosted (target: {} bit, {} endian), part {k} of {n}: every u8/i8 value, every 13th u16/i16 value plus those next to multiples of 1000 and the extremes; F-pow + reduced F-split + type extremes in every integer type that can hold the value (+NonZero)", usize::BITS, if cfg!(target_endian = "big") { "big" } else { "little" }), c, true, &format!("{} candidate values in the families", fam.len()));
+    cx.domain(&format!("hosted (target: {} bit, {} endian), part {k} of {n}: every u8/i8 value, every 13th u16/i16 value plus those next to multiples of 1000 and the extremes; F-pow + reduced F-split + F-div (q * 10^4 + r, r in 0, 1, 9998, 9999, for every 97th q below 2^32 / 10^4 and the last 50) + type extremes in every integer type that can hold the value (+NonZero)", usize::BITS, if cfg!(target_endian = "big") { "big" } else { "little" }), c, true, &format!("{} candidate values in the families", fam.len()));
     cx.class("8/16-bit".into(), small);
-    cx.class("families".into(), c - small);
+    cx.class("families".into(), c - small - div);
+    cx.class("F-div".into(), div);
 }
 
 // ---------------------------------------------------------------------------------------
